@@ -155,6 +155,11 @@ class Opt(Kind):
         return [z3.BoolSort()] + self.inner.leaf_sorts()
 
 
+def optk(kind):
+    """Opt(kind), without nesting."""
+    return kind if isinstance(kind, Opt) else Opt(kind)
+
+
 class Tuple(Kind):
     def __init__(self, *items):
         self.items = list(items)
